@@ -16,8 +16,8 @@ def _all(f):
     return True
 
 
-prop("C03", ["take_range", "sort_take", "limit_clause", "flatten_sort"],
-     not_covered="infer_sorts / alias_last_sorting (how the sort in effect travels down the CTE chain and across cid redirects: folds over PQ with HashMap state), "
+prop("C03", ["take_range", "sort_take", "limit_clause", "flatten_sort", "sort_infer"],
+     not_covered="alias_last_sorting and CidRedirector::redirect_sorts (how the sorting is re-expressed across cid redirects: folds over PQ with HashMap state); the driver loops of the sort inference (its step and the CTE record are under contract), "
                  "ensure_names for sort columns; the recursion of Flattener::fold_expr itself (the arms are proved against its contract)")
 
 MANIFEST_TEXT = {}
@@ -72,7 +72,7 @@ claim("C02",
       "Oracle = SQLite's documented precedence table (the executable grammar here). translate_expr is external (uninterpreted result, "
       "Context state not modelled); sqlparser enums are mechanically generated skeletons; sqlparser's Display is trusted to print trees as written.")
 
-prop("C01", ["split_order", "take_range", "operator_tpl", "vec_utils", "group_take"],
+prop("C01", ["split_order", "take_range", "operator_tpl", "vec_utils", "group_take", "flatten_sort", "sort_take", "sort_infer"],
      not_covered="anchor_split cid redirection, preprocess (distinct/union recognition), lowering, flattening, the other pluck call sites of translate_select_pipeline (select / sort / take / join): hash-map threaded folds over three "
                  "IRs; a violation there is invisible to these contracts")
 claim("C01",
@@ -140,7 +140,7 @@ claim("C14",
       "pr::Expr::write's use of needs_parenthesis and the non-binary arms' option handling are read off the text, not verified; chumsky's pratt() "
       "semantics assumed; regex / HashSet / Formatter / String operations are shims by contract.")
 
-prop("C05", ["select_shape", "star_exclude", "limit_select", "star_cols"],
+prop("C05", ["select_shape", "star_exclude", "limit_select", "star_cols", "sstring_cols", "lineage_except"],
      not_covered="the rest of translate_wildcards (bookkeeping of the current star and of the exclusion sets), split_off_back / anchor_split behind extract_atomic, agreement "
                  "with the resolver's frame for every program, run-time expansion of `*`")
 claim("C05",
@@ -229,7 +229,7 @@ def _safety(name):
 
 
 _ALL_UNITS = ["take_range", "sort_take", "split_order", "window_frame", "dialect_select", "ident_quote", "ids_names", "toposort", "rq_tables",
-              "select_shape", "span_units", "sql_prec", "prql_prec", "literals", "set_ops", "desugar", "resolve_guards", "lex_strings", "limit_clause", "static_eval", "operator_tpl", "rel_names", "lower_cols", "vec_utils", "group_take", "flatten_sort", "star_exclude", "std_arity", "limit_select", "rq_shape", "star_cols", "func_env", "json_lits", "cte_define", "type_meet", "fmt_strings", "concat_ops", "sstring_query"]
+              "select_shape", "span_units", "sql_prec", "prql_prec", "literals", "set_ops", "desugar", "resolve_guards", "lex_strings", "limit_clause", "static_eval", "operator_tpl", "rel_names", "lower_cols", "vec_utils", "group_take", "flatten_sort", "star_exclude", "std_arity", "limit_select", "rq_shape", "star_cols", "func_env", "json_lits", "cte_define", "type_meet", "fmt_strings", "concat_ops", "sstring_query", "sstring_cols", "lineage_except", "sort_infer"]
 prop("C12", _ALL_UNITS, select={u: _safety for u in _ALL_UNITS},
      not_covered="every function that is not under contract (~150 unwrap/expect sites, panic!(cannot find cid) in lookup_cid), "
                  "recursion depth, chumsky, time bounds")
@@ -258,7 +258,7 @@ claim("C08",
       "sqlparser's Display (leaves doubled quotes alone - read in its source, validated by the thorough-tier sweep on SQLite) and sqlformat (white space only, given "
       "its precondition) are trusted; str::parse, str::replace and format! are uninterpreted; date/time/interval arms are not under contract.")
 
-prop("C07", ["set_ops", "limit_clause", "literals", "rel_names", "cte_define", "sql_prec"], select={"literals": lambda n: n.split(".", 1)[1] in ("EI1", "expr_of_i64.safety", "TL1i", "TL1f", "NE1", "FM1"), "sql_prec": lambda n: n.split(".", 1)[1].startswith("NP4.std_neg") or n.endswith(".safety")},
+prop("C07", ["set_ops", "limit_clause", "literals", "rel_names", "cte_define", "sql_prec", "static_eval"], select={"static_eval": lambda n: n.split(".", 1)[1] in ("SE2w", "SE2i", "SE2x", "static_eval_case.safety"), "literals": lambda n: n.split(".", 1)[1] in ("EI1", "expr_of_i64.safety", "TL1i", "TL1f", "NE1", "FM1"), "sql_prec": lambda n: n.split(".", 1)[1].startswith("NP4.std_neg") or n.endswith(".safety")},
      not_covered="scope of every table / column reference, per-dialect grammar, empty projections, relation alias uniqueness (assign_names), "
                  "which dialects besides SQLite have no bare OFFSET (MySQL, BigQuery: the handler table is assumed, not executable here)")
 claim("C07",
@@ -267,13 +267,15 @@ claim("C07",
       "(WR1, loop invariant, any number of CTEs) and carries every CTE (WR2); the set quantifier is ALL iff duplicates are kept and DISTINCT is written "
       "only where the dialect accepts it (SQ1-2); the LIMIT / OFFSET / FETCH clause is one the dialect's grammar has: FETCH never without OFFSET and ORDER BY and "
       "never together with LIMIT (LC1, LC1f), a dialect without bare OFFSET gets a LIMIT meaning `no limit` whenever it gets an OFFSET (LC3, LC4), row counts are "
-      "written as plain decimal digits (literals EI1); CTE names and relation aliases are unique in their scope (rel_names AN1-2, RN1-2); nested unary minus never produces the comment token `--` (sql_prec NP4.std_neg rows). a table compiled inline leaves its declaration NotYetDefined, so no reference is compiled to the name of a CTE that was never emitted (cte_define CI1); The sentence "
+      "written as plain decimal digits (literals EI1); CTE names and relation aliases are unique in their scope (rel_names AN1-2, RN1-2); nested unary minus never produces the comment token `--` (sql_prec NP4.std_neg rows). a table compiled inline leaves its declaration NotYetDefined, so no reference is compiled to the name of a CTE that was never emitted (cte_define CI1); a `case` that survives constant folding has a WHEN branch - it is neither empty nor a lone `true => v`, which the generator would print as `CASE ELSE v END` (static_eval SE2w, inductive over the branch values); The sentence "
       "'every accepted program compiles to valid SQL of the dialect' is NOT what is proved.",
       "dialect flags and translate_cte are parameters / externals of the slices; the rest of except(), translate_query and "
       "translate_set_ops_pipeline is dropped.")
 
-prop("C06", ["desugar", "sort_take", "func_env", "cte_define", "split_order", "sql_prec"],
+prop("C06", ["desugar", "sort_take", "func_env", "cte_define", "split_order", "sql_prec", "take_range", "rel_names"],
      select={"split_order": lambda n: n.split(".", 1)[1] in ("RO1", "RO2", "RO3", "reorder.safety"),
+             "take_range": lambda n: n.split(".", 1)[1] in ("TR1", "TR2", "TR2n", "SB1", "SB2", "TRI1", "OM1", "range_of_ranges.safety", "take_slice.safety"),
+             "rel_names": lambda n: n.split(".", 1)[1] in ("AN1", "AN2", "AN3", "AN4", "name_one_decl.safety"),
              "sql_prec": lambda n: n.split(".", 1)[1] in ("NP6a", "NP6b", "TO1", "WP2", "try_into_between.safety", "translate_operand.safety")},
      not_covered="let / into naming, user-function beta-reduction (fold_function, apply_args_to_closure), named / default arguments, module paths "
                  "(Resolver over Module hash maps), prune_inputs, the CTE branch of compile_relation_instance")
@@ -282,6 +284,6 @@ claim("C06",
       "`all` turns the conditions of n consecutive filters into the single right-nested conjunction c1 AND (c2 AND ..) in pipeline order (FC1, FC2), "
       "which is true on a row exactly when every condition is (FC3, inductive lemma); the rewrite of `lo <= x AND x <= hi` into BETWEEN fires only for "
       "exactly that shape with one x and keeps lo / hi in place (NP6a-b, relevant to expression-to-function refactorings); the ORDER BY emitted "
-      "with a LIMIT is the embedded or inherited sort (sort_take, relevant to naming a sorted prefix with let / into). applying a function binds parameter i to argument i and nothing else - env_of_closure, any number of parameters, loop invariant (func_env EC1-3). a compute is moved in front of a take only if it is row-local, so naming the `.. | take n` prefix with let cannot change what a following window or grouped take sees (split_order RO1-3). a let-table that is inlined as a sub-query for one reference stays definable as a CTE for the next one (cte_define CI1-3). NOT proved: let/into, "
+      "with a LIMIT is the embedded or inherited sort (sort_take, relevant to naming a sorted prefix with let / into). applying a function binds parameter i to argument i and nothing else - env_of_closure, any number of parameters, loop invariant (func_env EC1-3). a compute is moved in front of a take only if it is row-local, so naming the `.. | take n` prefix with let cannot change what a following window or grouped take sees (split_order RO1-3). a let-table that is inlined as a sub-query for one reference stays definable as a CTE for the next one (cte_define CI1-3). consecutive takes merged into one LIMIT/OFFSET select exactly the rows that taking one after the other selects - which is what the let form of the same program executes (take_range TR1, TR2). every CTE gets a name different from the CTEs named before it, so a declaration moved into a module (`staging.t`) cannot shadow a table with the same short name (rel_names AN1-4). NOT proved: let/into, "
       "beta-reduction, modules.",
       "expand_expr, the call-node constructors and the meaning of std.and (three-valued AND) are externals / axioms.")
